@@ -129,14 +129,19 @@ def zone_status(tz, dt):
     return ('ok', [a.astimezone(UTC) for a in (a0, a1)])
 
 
-def check_iso(tz, dt):
-    d = {'kind': 'iso', 'tz': tz, 'dt': dt.isoformat()}
+def check_iso(tz, dt, aware_offset=None):
+    """aware_offset (minutes): the host hands the same instant over as a zone-aware datetime with that UTC offset (only a host can supply those)."""
+    d = {'kind': 'iso', 'tz': tz, 'dt': dt.isoformat(), 'aware_offset': aware_offset}
     status = zone_status(tz, dt)
     if status[0] != 'ok':
         return status[0]
     set_zone(tz)
     log = []
-    out = impl.run_model(models()['iso'], {'dd': dt}, log, debug=True)
+    dd = dt
+    if aware_offset is not None and 2 <= dt.year <= 9998:
+        dd = status[1][0].astimezone(datetime.timezone(datetime.timedelta(minutes=aware_offset)))
+        status = (status[0], status[1][:1])
+    out = impl.run_model(models()['iso'], {'dd': dd}, log, debug=True)
     if out.kind != 'ok' or not isinstance(out.value, list):
         raise Violation('ISO format/parse of %s in %s: %r' % (dt, tz, out), d, 'iso-raises')
     text, back, date_text = out.value
@@ -327,7 +332,7 @@ def run_shard(ctx, spec):
                 # several times of the same calendar day (both sides of a transition), formatted one after another
                 for hour in rnd.sample(range(24), 4):
                     check_iso(tz, dt.replace(hour=hour))
-            res = check_iso(tz, dt)
+            res = check_iso(tz, dt, rnd.choice([None, None, 0, 330, -480, 60, -1]) if rnd.random() < 0.5 else None)
             if res != 'ok':
                 ctx.discard('iso-' + res)
                 return
@@ -354,7 +359,7 @@ def replay(detail):
         elif k == 'arith':
             check_arith(detail['tz'], datetime.datetime.fromisoformat(detail['dt']), detail['n'])
         elif k == 'iso':
-            check_iso(detail['tz'], datetime.datetime.fromisoformat(detail['dt']))
+            check_iso(detail['tz'], datetime.datetime.fromisoformat(detail['dt']), detail.get('aware_offset'))
         else:
             text = detail['text']
             if detail.get('valid'):
